@@ -94,6 +94,11 @@ Here(t, m) ==
             LET k == KnownKinds[m.kind]
                 txt == IF m.txt /\ "v" \in DOMAIN t.kids[m.i].attrs THEN [a \in {"v"} |-> t.kids[m.i].attrs["v"]] ELSE [a \in {} |-> "text"]
             IN [t EXCEPT !.kids = InsertAfter(@, IF m.after THEN m.i ELSE m.i - 1, Leaf(k[1], k[2], txt))]
+      \* child i is duplicated and the copy's children are replaced by ONE child of another known kind
+      \* (two containers of the same kind with different known content, e.g. two pubsub <event/>s)
+      [] m.op = "DuplicateWithOtherChild" ->
+            LET k == KnownKinds[m.kind]
+            IN [t EXCEPT !.kids = InsertAfter(@, m.i, [@[m.i] EXCEPT !.kids = <<Leaf(k[1], k[2], [a \in {} |-> "text"])>>])]
       \* the character data of child i moves to its right neighbour
       [] m.op = "MoveText"         ->
             LET src == t.kids[m.i] dst == t.kids[m.i + 1]
@@ -129,6 +134,9 @@ Enabled(t, m) ==
           [] m.op = "AddUnknownChild"    -> m.ns \in KnownNs /\ Size(t) + 1 <= MaxNodes
           [] m.op = "AddKnownSibling"    -> /\ m.i \in 1..Len(e.kids) /\ Size(t) + 1 <= MaxNodes
                                             /\ KnownKinds[m.kind] # <<e.kids[m.i].tag, e.kids[m.i].ns>>
+          [] m.op = "DuplicateWithOtherChild" ->
+                /\ m.i \in 1..Len(e.kids) /\ Len(e.kids[m.i].kids) >= 1 /\ Size(t) + 2 <= MaxNodes
+                /\ \A j \in 1..Len(e.kids[m.i].kids) : KnownKinds[m.kind] # <<e.kids[m.i].kids[j].tag, e.kids[m.i].kids[j].ns>>
           [] m.op = "MoveText"           -> m.i \in 1..(Len(e.kids) - 1) /\ "v" \in DOMAIN e.kids[m.i].attrs
           [] m.op \in {"DropAttr", "EmptyAttr", "HugeAttr"} -> m.a \in DOMAIN e.attrs /\ e.attrs[m.a] # m.to
           \* a negative or non-numeric value is interesting where a number is expected,
@@ -145,7 +153,7 @@ Target(op) == CASE op = "EmptyAttr" -> "empty" [] op = "HugeAttr" -> "huge" [] O
 \* one-step mutation at every element, attribute and character-data position of every seed
 \* (character data of a leaf is modelled as an attribute).  AllOps is the alphabet.
 AllOps == {"DeleteChild", "DuplicateChild", "SwapSiblings", "MoveUnderSibling", "Renamespace", "Rename", "AddUnknownChild",
-           "AddKnownSibling", "MoveText",
+           "AddKnownSibling", "MoveText", "DuplicateWithOtherChild",
            "DropAttr", "EmptyAttr", "HugeAttr", "NegativeAttr", "NonNumericAttr", "UnknownEnum", "Nest"}
 
 Moves(t) ==
@@ -157,6 +165,7 @@ Moves(t) ==
       \cup {[op |-> "AddKnownSibling", p |-> p, i |-> i, kind |-> k, after |-> af, txt |-> tx] :
                 p \in P, i \in 1..3, k \in DOMAIN KnownKinds, af \in {TRUE}, tx \in BOOLEAN}   \* "before" is a variant of the concrete binding only
       \cup {[op |-> "MoveText", p |-> p, i |-> i] : p \in P, i \in 1..2}
+      \cup {[op |-> "DuplicateWithOtherChild", p |-> p, i |-> i, kind |-> k] : p \in P, i \in 1..3, k \in DOMAIN KnownKinds}
       \cup {[op |-> o, p |-> p, a |-> a, to |-> Target(o)] : o \in AttrOps, p \in P, a \in AttrNames}
       \cup {[op |-> "Nest", p |-> p, d |-> d] : p \in P, d \in Depths}
 
